@@ -8,7 +8,7 @@ git -C /repo worktree add -q --detach "$work" HEAD || exit 2
 trap 'git -C /repo worktree remove --force "$work" >/dev/null 2>&1; rm -rf "$work"' EXIT
 if [ "$demo" != "-" ]; then
   demo=$(readlink -f "$demo")
-  sed "s#/tmp/seed2\\?/C[0-9][0-9]#$work#g" "$demo" > "$work/_demo.py"
+  sed "s#/tmp/seed[0-9]*/C[0-9][0-9]#$work#g" "$demo" > "$work/_demo.py"
   (cd "$work" && PYTHONPATH="$work" /venv/bin/python _demo.py >/dev/null 2>&1); echo "demo without patch: exit $?"
 fi
 git -C "$work" apply "$patch" || { echo "PATCH DOES NOT APPLY"; exit 2; }
